@@ -36,15 +36,16 @@ type WalkOpts struct {
 }
 
 type Walk struct {
-	seen    []*node.Message // destination-form messages seen so far (material for forgeries)
-	U       *gen.Universe
-	M       *Mon
-	R       *harness.Rand
-	O       WalkOpts
-	creator map[string][]byte // token -> current create-role holder (sys actor's book-keeping)
-	handing map[string]bool
-	flipR   *harness.Rand // side stream for payability flips
-	encR    *harness.Rand // side stream for re-encodings
+	seen      []*node.Message // destination-form messages seen so far (material for forgeries)
+	U         *gen.Universe
+	M         *Mon
+	R         *harness.Rand
+	O         WalkOpts
+	creator   map[string][]byte // token -> current create-role holder (sys actor's book-keeping)
+	handing   map[string]bool
+	flipR     *harness.Rand                // side stream for payability flips
+	encR      *harness.Rand                // side stream for re-encodings
+	lastSched map[string]map[string]uint64 // the last schedule the factories accepted (reconfigure)
 }
 
 var amountsPool = []*big.Int{big.NewInt(1), big.NewInt(2), big.NewInt(7), big.NewInt(50), big.NewInt(1000), gen.Pow2(64), new(big.Int).Add(gen.Pow2(70), big.NewInt(12345)),
@@ -86,7 +87,7 @@ func NewWalk(r *harness.Rand, rep *harness.Reporter, o WalkOpts, enabled ...stri
 		u.N.PreRun = func(int) {
 			u.W.Fault = nil
 			if fr.Chance(o.Faults) {
-				u.W.Fault = &world.FaultPlan{FailAt: 1 + fr.Intn(7), Injectable: inj}
+				u.W.Fault = &world.FaultPlan{FailAt: 1 + fr.Intn(7), Injectable: inj, Err: world.FaultErrors[fr.Intn(len(world.FaultErrors))]}
 			}
 		}
 	}
@@ -654,13 +655,37 @@ func (w *Walk) opHostile() *node.Leg {
 func (w *Walk) reconfigure() {
 	r := w.R
 	if r.Bool() {
-		m := world.GasMapFrom(func(_, _ string, i int) uint64 { return 50 + uint64(r.Intn(400))*3 + uint64(i) })
+		var m map[string]map[string]uint64
+		switch {
+		case w.lastSched != nil && r.Chance(25):
+			// the schedule in force once more (a node re-reads its configuration): nothing may change
+			m = world.CloneGasMap(w.lastSched)
+			w.M.R.Cover("walk/reconfigure:same-schedule-again")
+		case w.lastSched != nil && r.Chance(25):
+			// a new schedule that touches ONE entry and leaves every other price as it is
+			m = world.CloneGasMap(w.lastSched)
+			var names []string
+			for k := range m[vmcommon.BuiltInCostString] {
+				names = append(names, k)
+			}
+			sort.Strings(names)
+			m[vmcommon.BuiltInCostString][names[r.Intn(len(names))]] += 1 + uint64(r.Intn(50))
+			w.M.R.Cover("walk/reconfigure:one-entry-changed")
+		default:
+			m = world.GasMapFrom(func(_, _ string, i int) uint64 { return 50 + uint64(r.Intn(400))*3 + uint64(i) })
+		}
+		valid := true
 		if r.Chance(30) {
 			delete(m[vmcommon.BuiltInCostString], "ESDTTransfer")
+			valid = false
 		} else if r.Chance(20) {
 			m[vmcommon.BaseOperationCostString]["StorePerByte"] = 0
+			valid = false
 		}
 		w.U.W.GasScheduleChange(m)
+		if valid {
+			w.lastSched = world.CloneGasMap(m)
+		}
 	} else {
 		w.U.W.ConfirmEpoch(w.U.W.Cfg.ActivationEpoch + uint32(r.Intn(3)))
 	}
